@@ -313,3 +313,18 @@ func init() {
 		},
 	})
 }
+
+// finalErrorCode: a completion code other than Normal that is FINAL — any of the 253 values that are neither 00h nor one of the
+// two temporary codes (C0h node busy, C3h timeout); half the time one of the commonly seen ones (seed C10-B14: a bit-set lookup
+// that took D0h / D3h for temporary)
+func finalErrorCode(rng *rand.Rand) byte {
+	if rng.Intn(2) == 0 {
+		return []byte{0xC1, 0xC9, 0xD4, 0xFF, 0x80}[rng.Intn(5)]
+	}
+	for {
+		c := byte(1 + rng.Intn(255))
+		if c != 0xC0 && c != 0xC3 {
+			return c
+		}
+	}
+}
